@@ -504,7 +504,7 @@ func (a *Allocation) flushOrInvalidateRange(offset, size int, outRange *core1_0.
 	case allocationTypeBlock:
 		// Calculate Size within the allocation
 		if size == common.WholeSize {
-			size = allocationSize - outRange.Offset
+			size = allocationSize - offset
 		}
 
 		outRange.Size = memutils.AlignUp(size+(offset-outRange.Offset), uint(nonCoherentAtomSize))
